@@ -1870,11 +1870,13 @@ func (v *VM) execute(ctx *Context, op opcode.Opcode, parameter []byte) (err erro
 		ctx.Jump(eOffset)
 
 	case opcode.ENDFINALLY:
+		// The current try context is left unconditionally, a pending exception
+		// is then handled by the outer contexts only.
+		eCtx := ctx.tryStack.Pop().Value().(*exceptionHandlingContext)
 		if v.uncaughtException != nil {
 			v.handleException()
 			return
 		}
-		eCtx := ctx.tryStack.Pop().Value().(*exceptionHandlingContext)
 		ctx.Jump(eCtx.EndOffset)
 
 	default:
